@@ -5,8 +5,13 @@
      _load_multiple_spike_times      spike_order = np.argsort(concat times, kind='stable'); times[spike_order]
      _load_multiple_spike_arrays     assert len(concat) == len(spike_order); concat[spike_order]   (same order reused)
      write_spike_data                amplitudes (and the not-yet-shifted templates, overwritten later)
-     write_spike_clusters            running offsets coffset/toffset += max + 1, in-place shift of each probe's ids,
-                                     cluster_probes = concat (i * ones(n_clu)), the final assert
+     write_spike_clusters            (as repaired on branch fix-c11b) running offsets: coffset += max(spike_clusters) + 1,
+                                     toffset += n_tmp where n_tmp = number of rows of the probe's templates.npy (an INPUT,
+                                     p_ntmpl; np.max(spike_templates) is no longer evaluated), in-place shift of each
+                                     probe's ids, cluster_probes = concat (i * ones(n_clu)), the final assert.
+                                     Nothing in the code compares n_tmp with the probe's spike_templates: when a spike
+                                     names a template >= n_tmp the merge goes through and the shifted id falls into the
+                                     next probe's range (modelled as is; Props.C11_template_count_needed)
      write_cluster_data              per TSV file: dictionary id + offset -> value over the probes that have the file
                                      (later probe overwrites), field name of the last probe that has it, rows sorted by id,
                                      file written only when the dictionary is not empty
@@ -24,6 +29,7 @@ Record metatab := mkmeta { mt_field : F; mt_rows : list (Z * V) }.   (* one two-
 
 Record probe := mkprobe {
   p_times : list Z; p_amps : list A; p_tmpl : list Z; p_clu : list Z;
+  p_ntmpl : Z;                       (* templates.npy.shape[0]: the number of templates of the probe *)
   p_meta : list (option metatab)     (* one entry per name in write_cluster_data's list; None = file absent *)
 }.
 
@@ -63,17 +69,17 @@ Fixpoint sc_loop (i coff toff : Z) (ps : list probe) : option (list shifted) :=
   match ps with
   | [] => Some []
   | p :: r =>
-    match zmax_opt (p_clu p), zmax_opt (p_tmpl p) with
-    | Some mc, Some mt =>
+    match zmax_opt (p_clu p) with
+    | Some mc =>
         let n_clu := mc + 1 in
-        let n_tmp := mt + 1 in
+        let n_tmp := p_ntmpl p in                      (* zip(..., n_templates_l) *)
         if n_clu <? 0 then None (* np.ones(negative) *) else
         match sc_loop (i + 1) (coff + n_clu) (toff + n_tmp) r with
         | Some rest => Some (mkshift coff toff (map (Z.add coff) (p_clu p)) (map (Z.add toff) (p_tmpl p))
                                      (repeat i (Z.to_nat n_clu)) :: rest)
         | None => None
         end
-    | _, _ => None
+    | None => None
     end
   end.
 
